@@ -73,6 +73,16 @@ func recBytes(r Rec, dec string) []byte {
 		s = `{"id":` + strconv.Itoa(r.ID) + `,"pad":"` + strings.Repeat("x", r.Pad)
 	case "text":
 		s = "t" + strconv.Itoa(r.ID) + ":" + strings.Repeat("y", r.Pad)
+	case "multi":
+		// a multi-line payload (a Kafka message, say): every third byte of the padding is a newline
+		b := make([]byte, r.Pad)
+		for j := range b {
+			b[j] = 'y'
+			if (j+r.ID)%3 == 0 {
+				b[j] = '\n'
+			}
+		}
+		s = "t" + strconv.Itoa(r.ID) + ":" + string(b)
 	default:
 		s = fmt.Sprintf(`{"id":%d,"pad":%q}`, r.ID, strings.Repeat("x", r.Pad))
 	}
@@ -125,6 +135,8 @@ func (h *H) Gen(rng *rand.Rand, tier, prop string) core.Cfg {
 			r.Kind = "nl"
 		case c.Decoder == "json" && core.Chance(rng, 0.08):
 			r.Kind = "bad"
+		case c.Decoder == "raw" && core.Chance(rng, 0.2):
+			r.Kind = "multi"
 		case c.Decoder == "raw":
 			r.Kind = "text"
 		default:
